@@ -119,6 +119,17 @@ class Ctx:
             self.samples.append(sample)
         return m
 
+    def explain(self, m, conds):
+        """indices of the conjuncts that are false under model m (debugging aid; recorded in notes)"""
+        bad = []
+        for i, c in enumerate(conds):
+            try:
+                if not z3.is_true(m.eval(c, model_completion=True)):
+                    bad.append((i, str(z3.simplify(c))[:160]))
+            except z3.Z3Exception:
+                bad.append((i, '?'))
+        return bad
+
     def check_sat(self, name, pc, extra=None):
         """vacuity / reachability witness: pc (∧ extra) must be satisfiable. returns model."""
         r, m, s = self.solve(list(pc) + ([extra] if extra is not None else []))
@@ -219,8 +230,9 @@ class Ctx:
                     return v
         if role is None:
             role = f"unreproduced-{len(self.violations)}"
-        os.makedirs(os.path.join(VERIF, 'replays'), exist_ok=True)
-        path = os.path.join(VERIF, 'replays', f"{self.pid}_{re.sub(r'[^A-Za-z0-9_.-]', '_', role)}.json")
+        rdir = os.environ.get('VERIF_REPLAY_DIR', os.path.join(VERIF, 'replays'))
+        os.makedirs(rdir, exist_ok=True)
+        path = os.path.join(rdir, f"{self.pid}_{re.sub(r'[^A-Za-z0-9_.-]', '_', role)}.json")
         json.dump({'property': self.pid, 'role': role, 'what': text, 'model': model_desc, 'rust_test': uses + "\n" + test_body, 'replay': rp}, open(path, 'w'), indent=1)
         known = [k for k in self.known if k.get('property') == self.pid and k.get('role') == role and k.get('status') == 'known']
         v = {'role': role, 'text': text, 'replay': path, 'reproduced': rp['reproduced'], 'known': bool(known), 'model': model_desc}
@@ -278,8 +290,9 @@ class Ctx:
             cov['explanation'] = explanation
         ev = {'property_id': self.pid, 'tier': self.tier, 'seed': self.seed, 'level': level, 'coverage': cov,
               'assumptions': self.assumptions, 'wall_s': wall, 'violations': len(real)}
-        os.makedirs(os.path.join(VERIF, 'evidence'), exist_ok=True)
-        json.dump(ev, open(os.path.join(VERIF, 'evidence', self.pid + '.json'), 'w'), indent=1, default=str)
+        evdir = os.environ.get('VERIF_EVIDENCE_DIR', os.path.join(VERIF, 'evidence'))
+        os.makedirs(evdir, exist_ok=True)
+        json.dump(ev, open(os.path.join(evdir, self.pid + '.json'), 'w'), indent=1, default=str)
         for v in knownv:
             print(f"KNOWN-FINDING: property={self.pid} {v['role']}: {v['text']}")
         for v in real:
